@@ -199,6 +199,17 @@ fn with_includes(rng: &mut Rng, root_text: String, make: &mut dyn FnMut(&mut Rng
         root.push_str("include \"missing.td\"\n");
     }
     root.push_str(&root_text);
+    // include statements nested in blocks (defset / let / foreach / if bodies)
+    if !names.is_empty() && rng.chance(1, 4) {
+        let n = &names[rng.below(names.len())];
+        let nested = match rng.below(4) {
+            0 => format!("\ndefset list<A> Nested = {{\n  include \"{n}\"\n  def after_inc : A;\n}}\n"),
+            1 => format!("\nlet x = 1 in {{\n  include \"{n}\"\n}}\n"),
+            2 => format!("\nforeach i = [1, 2] in {{\n  include \"{n}\"\n}}\n"),
+            _ => format!("\nif 1 then {{\n  include \"{n}\"\n}} else {{\n  include \"{n}\"\n}}\n"),
+        };
+        root.push_str(&nested);
+    }
     files.push(("root.td".into(), root));
     for (i, n) in names.iter().enumerate() {
         let mut t = String::new();
